@@ -671,14 +671,18 @@ theorem raises_yieldConnected {se : Prop} (proxy : Bool) : Raises (OkTop se) (yi
     exact hx.react r2
   · exact raises_yieldEv_top _
 
-theorem raises_afterConnectL {se : Prop} (l : M Unit) (hl : Raises (OkLoop se) l) (proxy : Bool) :
-    Raises (OkTop se) (afterConnectL l proxy) := by
+theorem raises_afterConnectL {se : Prop} (l : M Unit) (hl : Raises (OkLoop se) l) (proxy : Bool)
+    (sel : Bool) : Raises (OkTop se) (afterConnectL l proxy sel) := by
   unfold afterConnectL
   refine raises_bind (raises_modS _) (fun _ => raises_getS_bind (fun s =>
     raises_bind (noRaise_write _ _).raises (fun r => ?_)))
   split
   · exact raises_closeYield _
   · exact raises_bind (raises_yieldConnected proxy) (fun _ => raises_bind (raises_modS _) (fun _ => raises_runLoopL l hl))
+
+/-- the selector's constructor raising is an ordinary `Exception` -/
+theorem raises_selectorError (se : Prop) : Raises (OkLoop se) (throwE (.other "error") : M Unit) :=
+  raises_throwE (fun _ => Or.inl trivial)
 
 /-- **Nothing but `GeneratorExit` (and only when the application abandons the iterator) or the end of
     the environment script (and only when the loop can run out of script) leaves `run()`.** -/
@@ -688,6 +692,7 @@ theorem raises_runL {se : Prop} (l : M Unit) (hl : Raises (OkLoop se) l) : Raise
   split
   · exact raises_yieldEv_top _
   · exact raises_yieldEv_top _
-  · exact raises_afterConnectL l hl _
+  · exact raises_afterConnectL l hl _ _
+  · exact raises_afterConnectL _ (raises_selectorError se) _ _
 
 end Lomond.Core.Monitor
